@@ -12,7 +12,10 @@ Open Scope Z_scope.
    only the history is known. *)
 Inductive case :=
 | Sched (s0 : st) (progs : list (list op)) (sched : list nat) (obs : list oev)
-| Free (s0 : st) (progs : list (list op)) (obs : list oev).
+| Free (s0 : st) (progs : list (list op)) (obs : list oev)
+(* free-running calls of one *WithFunc method released together: the highest number of callbacks that the
+   API runs inside its write-locked section (all but LoadWithFunc's) seen executing at the same moment *)
+| Overlap (most : Z).
 
 Definition oev_eqb (a b : oev) : bool :=
   match a, b with
@@ -40,12 +43,16 @@ Definition agrees (c : case) : bool :=
   match c with
   | Sched s0 progs sched obs => oevs_eqb (model_history s0 progs sched) obs
   | Free s0 progs obs => lin_check s0 progs obs
+  | Overlap _ => true
   end.
 
 Definition pclass (c : case) : N :=
   match c with
   | Sched s0 progs _ obs => c14_class s0 progs obs
   | Free s0 progs obs => c14_class s0 progs obs
+  (* an operation takes effect atomically, its callback included: two write-section callbacks at once
+     means two operations were inside their atomic step together *)
+  | Overlap most => if (most <=? 1)%Z then 0%N else 6%N
   end.
 
 Definition mismatches (cs : list case) : list N := bad_indices (fun c => negb (agrees c)) cs.
